@@ -9,6 +9,7 @@ import (
 	"flag"
 	"fmt"
 	"os"
+	"strings"
 
 	"github.com/enbility/spine-go/api"
 	"github.com/enbility/spine-go/model"
@@ -49,6 +50,7 @@ type ListLine struct {
 	SnapChg []int      `json:"snapchg"` // indices (steps) of earlier snapshots whose content changed in this step
 	Panic   string     `json:"panic"`
 	Ci      int        `json:"ci"` // index of the case in the input file
+	Fn      string     `json:"fn"` // the list function (reflective adapter)
 }
 
 type listAdapter interface {
@@ -332,6 +334,15 @@ func listReplay(args []string) {
 	typ := fs.String("type", "limit", "limit | setpoint | ecparam")
 	must(fs.Parse(args))
 	ad, ok := listAdapters[*typ]
+	noW := false
+	if strings.HasPrefix(*typ, "refl:") {
+		m, _ := reflAdapters()
+		ra, found := m[strings.TrimPrefix(*typ, "refl:")]
+		if !found {
+			must(fmt.Errorf("no reflective adapter for %s", *typ))
+		}
+		ad, ok, noW = ra, true, ra.wIdx < 0
+	}
 	if !ok {
 		must(fmt.Errorf("unknown list type %s", *typ))
 	}
@@ -350,6 +361,11 @@ func listReplay(args []string) {
 	for sc.Scan() {
 		var c ListCase
 		must(json.Unmarshal(sc.Bytes(), &c))
+		if noW && usesW(&c) {
+			// the element type has one value field only
+			nb++
+			continue
+		}
 		fdata := ad.newFD()
 		if len(c.Init) > 0 {
 			if _, e := fdata.UpdateDataAny(false, true, ad.mk(c.Init), nil, nil); e != nil {
@@ -359,7 +375,7 @@ func listReplay(args []string) {
 		var snaps []snap
 		for i := range c.Ups {
 			u := &c.Ups[i]
-			line := ListLine{Op: "update", U: u, SnapChg: []int{}, Ret: []AbsItem{}, Ci: nb}
+			line := ListLine{Op: "update", U: u, SnapChg: []int{}, Ret: []AbsItem{}, Ci: nb, Fn: string(ad.fn())}
 			pre := fdata.DataCopyAny()
 			line.Pre = ad.abs(pre)
 			snaps = append(snaps, snap{pre, ser(pre), i})
@@ -406,4 +422,23 @@ func absAnyList(ad listAdapter, ret any) []AbsItem {
 		return ad.abs(&model.ElectricalConnectionParameterDescriptionListDataType{ElectricalConnectionParameterDescriptionData: v})
 	}
 	return ad.abs(ret)
+}
+
+func usesW(c *ListCase) bool {
+	for _, it := range c.Init {
+		if it.W != 0 {
+			return true
+		}
+	}
+	for _, u := range c.Ups {
+		for _, it := range u.Data {
+			if it.W != 0 {
+				return true
+			}
+		}
+		if has(u.DElem, "w") {
+			return true
+		}
+	}
+	return false
 }
